@@ -127,6 +127,26 @@ CHECKS += [
           "A returned value must be one of the readings the grammar assigns to the text; an empty reading set demands ValueError and no other exception type.",
   "note": "Rejecting is always sound here (acceptance is C07). Per the suite's own property test any single byte, even a digit, is a legal date/time separator when none is configured."},
 ]
+CHECKS += [
+ {"id": "C02", "engine": "E1-shape",
+  "technique": "exhaustive enumeration of format templates x boundary datetimes x offset forms/values x flags x process TZ; the independent renderer is the inverse; two-digit years exhaustively under fake clocks",
+  "text": "44 templates (ISO-like, compact, ctime, RFC 2822, month-name, 12-hour clock, NNhNNmNNs, dot/comma fractions, US/European/year-first numeric with matching flags) x 14 years "
+          "(1..9999 incl. 4-digit years below 100) x 12 month/day pairs x 9 times x 9 offset forms x 7 offset values (to +-23:59) x process TZ settings: parse(render(dt)) must equal dt truncated "
+          "to the rendered precision, naive iff no offset was rendered. Two-digit years: yy=00..99 x 6 templates x clocks 1999/2000/2049/2050/2099/real must give the unique year within -50..+49.",
+  "note": "refs/parse_render.py is the inverse; parser clock seam (dateutil.parser._parser.time while a parserinfo is built, bind asserted); TZ+tzset seam."},
+ {"id": "C14", "engine": "E1-shape (token automaton)",
+  "technique": "exhaustive enumeration of all lexer-token sequences up to depth 3 (thorough 4) over a 50-token alphabet x 6 option sets; outcome-class, determinism, type-equivalence and ordered-pair carry-over oracles",
+  "text": "Every sequence of up to 3 (thorough 4) tokens from an alphabet with one token per parser branch plus hostile ones (30-digit numbers, NUL, Arabic-Indic digit, superscript, inf/nan/e5) under "
+          "default / fuzzy / fuzzy_with_tokens / dayfirst+yearfirst / ignoretz / tzinfos: the outcome must be a datetime (or documented pair), a ValueError-family exception or OverflowError, within a CPU cap, "
+          "identical on re-evaluation; str/bytes/bytearray/stream agree on all token pairs; non-text raises TypeError; for all ordered pairs of a 300-string set the second call's outcome is independent of the first.",
+  "note": "ParserError is read as the ValueError family; endless streams are outside the alphabet."},
+ {"id": "C15", "engine": "E1-shape",
+  "technique": "exhaustive enumeration of partial texts x defaults, of a zone-resolution decision table (zone text x tzinfos form x ignoretz x process TZ), of renderings x fillers, and of the token space for strict=>fuzzy",
+  "text": "31 partial texts x 14 defaults (days 28-31, leap years, range ends) against replace-with-clipping and weekday-forward semantics; 22 zone texts x 8 tzinfos forms x ignoretz x 5 process TZ settings x 4 base "
+          "times (incl. local folds) against the documented resolution order incl. exactly one UnknownTimezoneWarning; 17 renderings x 4 datetimes x 5 fillers for fuzzy and fuzzy_with_tokens (tokens a subsequence "
+          "of the input, all filler words in order, no date digits); every token sequence up to depth 3/4 accepted strictly must give the same result with fuzzy and fuzzy_with_tokens.",
+  "note": "Local-zone answers come from tz.tzlocal() (C08); a callable tzinfos consulted without zone text is left unjudged."},
+]
 _claimed = {c["id"] for c in CHECKS}
 NOT_APPLICABLE = [{"property_id": p, "reason": "check not built yet (work in progress; see DESIGN.md §5 build order)"}
                   for p in ALL if p not in _claimed]
